@@ -16,7 +16,7 @@ space separated tokens
   Q:<conn>          connection closed (its dispatcher drops the connection data)
   M=<mode>          harness mode marker (no effect on the model)
 
-Output: per token `<text>#<live extension values>,<live connection data>`; `<text>` of `R` is the
+Output: per token `<text>#<live extension values>,<live connection data>,<app data alive 0/1>`; `<text>` of `R` is the
 `|`-joined dumps (middleware before routing | handler | middleware after), see
 `ActixModel.ReqPool.dump`.  Implementation side: `harness/src/props/c11.rs`.
 -/
@@ -87,7 +87,8 @@ def parseOp (tok : String) : Option Op :=
   | ["Q", c] => c.toNat?.map .closeConn
   | _ => none
 
-def suffix (w : World) : String := "#" ++ toString (aliveExt w) ++ "," ++ toString (aliveConn w)
+def suffix (w : World) : String :=
+  "#" ++ toString (aliveExt w) ++ "," ++ toString (aliveConn w) ++ "," ++ toString (aliveApp w)
 
 def runTokens : World → List String → List String
   | _, [] => []
